@@ -835,7 +835,8 @@ class ComposerText(ComposerBase):
         self.compose_string(value)
 
     def compose_date_time(self, value, fmt):
-        self.compose_string(value.strftime(fmt))
+        # strftime does not pad years below 1000 on every platform
+        self.compose_string(value.strftime(fmt.replace('%Y', '{:04d}'.format(value.year))))
 
     def compose_time_delta(self, value):
         self.compose_numeric(int(value.total_seconds()))
